@@ -10,7 +10,13 @@ CONTAINERS = ["SubmodelElementCollection", "SubmodelElementList", "Entity", "Ope
               "AnnotatedRelationshipElement"]
 ROOTS = ["Submodel", "AssetAdministrationShell", "ConceptDescription"]
 ID_SHORTS = ["a", "b", "c", "A", "x1", "p_2", "l0", "B"]
-IDS = ["urn:a", "urn:b", "urn:c", "urn:d"]
+BASE_IDS = ["urn:a", "urn:b", "urn:c", "urn:d"]
+# identifiers with leading / trailing white space are valid Identifiers and differ from their trimmed twins
+WS_IDS = ["urn:a ", " urn:a", "urn:b\t", "\nurn:c", "urn:c\n", "\u00a0urn:d", "urn:d\u00a0 ", "  urn:b  "]
+IDS = BASE_IDS + WS_IDS
+LONG_LIST = [11, 12, 21, 23]          # list lengths whose last positions contain a 0 after the first digit (10, 20)
+LONG_LIST_THOROUGH = [101, 111]
+long_lists = {"p": 0.05, "thorough": False}       # set by the harness
 
 
 def node(c, k=None, ch=(), id_="", src="", sets=None):
@@ -32,6 +38,9 @@ def gen_elem(rng, depth, key, force=None, stats=None):
     width = rng.randint(0, 3)
     if c == "SubmodelElementList":
         et = rng.choice(LEAVES + CONTAINERS) if depth > 1 else rng.choice(LEAVES)
+        if rng.random() < long_lists["p"]:
+            et = rng.choice(LEAVES)
+            width = rng.choice(LONG_LIST + (LONG_LIST_THOROUGH if long_lists["thorough"] and rng.random() < .3 else []))
         n = node(c, key, [gen_elem(rng, depth - 1, None, force=et, stats=stats) for _ in range(width)])
         n["elem"] = et
         return n
@@ -61,7 +70,14 @@ def gen_provider(rng, depth, nstores, stats=None):
     """list of stores; ids are unique inside a store and may repeat across stores"""
     prov = []
     for _ in range(nstores):
-        ids = rng.sample(IDS, rng.randint(0 if nstores > 1 else 1, 3))
+        ids = rng.sample(BASE_IDS if rng.random() < .5 else IDS, rng.randint(0 if nstores > 1 else 1, 3))
+        if rng.random() < .3:
+            # an identifier with surrounding white space next to its trimmed twin (same store or another one)
+            w = rng.choice(WS_IDS)
+            for i in (w, w.strip()):
+                if i not in ids and rng.random() < .8:
+                    ids.append(i)
+            rng.shuffle(ids)
         prov.append([gen_root(rng, depth, i, stats=stats) for i in ids])
     return prov
 
@@ -155,13 +171,35 @@ def clean(x):
 
 # ------------------------------------------------------------------ Coq terms
 
+def coq_str_any(s):
+    """Coq string for any str: printable ASCII as a literal, every other byte of the UTF-8 encoding by its code"""
+    if all(32 <= ord(c) < 127 for c in s):
+        return coq_str(s)
+    parts, run = [], ""
+    for b in s.encode("utf-8"):
+        if 32 <= b < 127:
+            run += chr(b)
+        else:
+            if run:
+                parts.append(coq_str(run))
+                run = ""
+            parts.append(f'(String (Ascii.ascii_of_nat {b}) "")')
+    if run:
+        parts.append(coq_str(run))
+    return "(" + " ++ ".join(parts) + ")"
+
+
+def enc_utf8(s):
+    return list(s.encode("utf-8"))
+
+
 def coq_tree(t, cls_index, with_src=False):
     ch = coq_list(coq_tree(c, cls_index, with_src) for c in t["ch"])
     k = coq_str(t["k"] or "")
     if with_src:
-        return f"(ns {cls_index[t['c']]} {coq_str(t['id'])} {k} {coq_str(t['src'])} {ch})"
+        return f"(ns {cls_index[t['c']]} {coq_str_any(t['id'])} {k} {coq_str(t['src'])} {ch})"
     if t["id"]:
-        return f"(rt {cls_index[t['c']]} {coq_str(t['id'])} {k} {ch})"
+        return f"(rt {cls_index[t['c']]} {coq_str_any(t['id'])} {k} {ch})"
     return f"(nd {cls_index[t['c']]} {k} {ch})"
 
 
